@@ -76,12 +76,13 @@ class State:
 
 
 class Outcome:
-    __slots__ = ("kind", "state", "value")
+    __slots__ = ("kind", "state", "value", "locals")
 
     def __init__(self, kind, state, value=None):
         self.kind = kind    # 'fall' | 'return' | 'break' | 'continue' | 'raise'
         self.state = state
         self.value = value
+        self.locals = None  # callee environment at exit (for postconditions over locals)
 
 
 class Obligation:
